@@ -16,12 +16,15 @@ from .. import core
 
 CLS = {1: 'M', 2: 'MM', 3: 'SS', 4: 'UM', 5: 'RT'}
 OPS = {1: 'new', 2: 'copy', 3: 'freeze', 4: 'thaw', 5: 'setattr', 6: 'hash', 7: 'freeze_none',
-       8: 'thaw_none', 9: 'hashf'}
+       8: 'thaw_none', 9: 'hashf', 10: 'delattr'}
 BAD = 999
+TWIN = 777
 
 
 def xval(cls, x):
     """Model value of x -> real attribute (name, value)."""
+    if x == TWIN:
+        x = 1.0
     if cls in ('M', 'RT'):
         return 'note', x           # a clock message has no such attribute
     if cls == 'MM':
@@ -194,6 +197,18 @@ def replay_history(steps):
                     return ('%s/%s' % (kind, c), '%s: %s=%r on %s %s, specification says %s' % (
                         where, name, val, type(o).__name__, 'succeeds' if got_ok else 'raises',
                         'accept' if ok else 'reject'))
+            elif op == 'delattr':
+                o = objs[i - 1]
+                d = describe(o)
+                if isinstance(d, str):
+                    return 'heap-mismatch/delattr', '%s: %s' % (where, d)
+                name = xval(CLS[d[0]], 1)[0] if attr == 'x' else 'time'
+                try:
+                    delattr(o, name)
+                    return ('attribute-deleted/%s%s' % ('frozen/' if d[1] else '', CLS[d[0]]),
+                            '%s: del %s.%s succeeded' % (where, type(o).__name__, name))
+                except ALLOWED:
+                    pass
             elif op == 'hash':
                 a, b = objs[i - 1], objs[j - 1]
                 try:
